@@ -151,6 +151,53 @@ def check(P: Project, R: Report) -> None:
     if not opened:
         R.ob("R9", "the client opens no file, pipe or socket of its own", True, rel, "", sample="R9 no open()/tempfile/os.open/os.pipe/socket result kept on the client")
 
+    # ------------------------------------------------------------------ R10: the wrapper's exit is the client's exit
+    R.rule("R10", "leaving the transport context is leaving the client context: on every path of StdioTransport.__aexit__ that holds a client, the client's __aexit__ is awaited — no counter, flag or mode lets the exit return while the child it started is still running")
+    tmod = "chuk_mcp.transports.stdio.transport"
+    tax = P.maybe_func(tmod, "StdioTransport.__aexit__")
+    R.need(tax is not None, "anchor: StdioTransport.__aexit__ not found")
+    R.fn(tax.fq)
+    holder = None
+    tcls = tax.cls
+    for f_ in P.methods(tcls).values():
+        for s_ in walk_local(f_.node):
+            if isinstance(s_, (ast.Assign, ast.AnnAssign)) and isinstance(getattr(s_, "value", None), ast.Call) and P.resolve_call(f_, s_.value) is cl:
+                for t_ in (s_.targets if isinstance(s_, ast.Assign) else [s_.target]):
+                    if isinstance(t_, ast.Attribute) and isinstance(t_.value, ast.Name) and t_.value.id == "self":
+                        holder = f"self.{t_.attr}"
+            # … or built into a local first and published after a successful start (`client = StdioClient(…); …; self._client = client`)
+            if isinstance(s_, ast.Assign) and len(s_.targets) == 1 and isinstance(s_.targets[0], ast.Attribute) and isinstance(s_.targets[0].value, ast.Name) and s_.targets[0].value.id == "self" and isinstance(s_.value, ast.Name):
+                defs_ = [x.value for x in walk_local(f_.node) if isinstance(x, ast.Assign) and len(x.targets) == 1 and isinstance(x.targets[0], ast.Name) and x.targets[0].id == s_.value.id]
+                if defs_ and all(isinstance(d_, ast.Call) and P.resolve_call(f_, d_) is cl for d_ in defs_):
+                    holder = f"self.{s_.targets[0].attr}"
+    R.need(holder is not None, "anchor: StdioTransport keeps its client under no attribute this rule can find")
+    # locals of __aexit__ that stand for the client (`client, self._client = self._client, None`)
+    talias = set()
+    for a_ in walk_local(tax.node):
+        if isinstance(a_, ast.Assign) and len(a_.targets) == 1:
+            pairs_ = [(a_.targets[0], a_.value)]
+            if isinstance(a_.targets[0], ast.Tuple) and isinstance(a_.value, ast.Tuple) and len(a_.targets[0].elts) == len(a_.value.elts):
+                pairs_ = list(zip(a_.targets[0].elts, a_.value.elts))
+            for t_, v_ in pairs_:
+                if isinstance(t_, ast.Name) and ast.unparse(v_) == holder:
+                    talias.add(t_.id)
+
+    def tev(call, st, an):
+        nm = call_name(call)
+        if nm == f"{holder}.__aexit__" or (nm.endswith(".__aexit__") and nm[: -len(".__aexit__")] in talias):
+            return "client-exit"
+        return None
+
+    ta, to = run_paths(tax.node, event_of=tev, fallible=False)
+    touts = [(st, n_) for st, n_ in to.ret] + [(st, None) for st in to.normal]
+    R.need(touts, "anchor: StdioTransport.__aexit__ has no normal exit")
+    for st, n_ in touts:
+        forms_ = {f"not {holder}", f"{holder} is None"} | {f"not {a_}" for a_ in talias} | {f"{a_} is None" for a_ in talias}
+        none_held = any(ta.origin(l).replace("<", "").replace(">", "") in forms_ or re.sub(r"·\d+·\w+", "", l) in forms_ for l in st.lits)
+        R.ob("R10", "the transport's exit shuts its client down whenever it has one", "client-exit" in st.events or none_held, f"{tax.module.rel}:{getattr(n_, 'lineno', tax.node.lineno)}",
+             f"a path returns without awaiting `{holder}.__aexit__` although a client may exist (under {sorted(l[:50] for l in st.lits)[:4]}): the child, its pipes and the reader/writer tasks outlive the context — for instance after an earlier entry that failed left a count or flag behind",
+             sample=f"R10 {tax.qual}: returns only after {holder}.__aexit__ or with no client")
+
     # ------------------------------------------------------------------ R1
     term = None
     for f in meths.values():
